@@ -14,7 +14,7 @@ RULE = ("direct oracle on the library (harness/num.c): int32/uint32/float set->g
         "(doubles), limits, subnormals, infinities, NaNs, and pseudo-random values; set->write->read->get for all seven types incl. "
         "14 boolean spellings; plus scenarios comparing the text each integer setter stores with the model's printf, and typed setters "
         "called on keys that already hold a text (empty, absent, another spelling of the same truth value, numbers) in fresh and parsed "
-        "objects, read back directly and through a written file; "
+        "objects (among them a file with keys that have neither delimiter nor value), read back directly and through a written file; "
         "non-trivial = a value round trip; distinct values are counted by the harness")
 EXHAUSTIVE = {"quick": False, "thorough": True}
 ASSUMPTIONS = ["glibc printf(%.*g) and strtof/strtod are correctly rounded (assumed; FloatThm shows that 9/17 digits then suffice)"]
@@ -56,10 +56,16 @@ def scenarios(tier, rng):
     BOOLS = [(b"true", 1), (b"false", 0), (b"0", 0), (b"1", 1), (b"yes", 1), (b"no", 0), (b"YES", 1), (b"No", 0), (b"False", 0), (b"TRUE", 1)]
     for i in range(n):
         s = Scenario("p%d" % i, {"prior": True, "want": []})
-        if rng.random() < 0.5:
+        r = rng.random()
+        if r < 0.4:
             s.add("NEW", 0, "ini")
-        else:
+        elif r < 0.7:
             s.file(b"/in.conf", b"k0=\nk1=no\n[S]\nk2=\"\"\nk3=0\nk4\n")
+            s.add("RF", 0, h(b"/in.conf"), h(b"="), h(b"#"))
+        else:
+            # a file with keys that have neither delimiter nor value (each behind an empty line, so that it is a key of its own
+            # and not the next line of the value before it), next to keys which then get typed values
+            s.file(b"/in.conf", b"k0=no\n\nk1\n\nk2=3\n\nk3\n[S]\nk4=0\n\nk5\n\nk0=1\n")
             s.add("RF", 0, h(b"/in.conf"), h(b"="), h(b"#"))
         for j in range(6):
             g = rng.choice([None, b"S"])
